@@ -717,6 +717,23 @@ func extractC15(c *ctxT) {
 	c.facts["C15.genesisCustom"] = frows
 	_ = strconv.Itoa
 
+	qAct, qConv := c15QueueKeys(c, kdir, adir)
+	boolean("activationQueueKeyIsVotingEnd", "ActivateVotingPeriod: the single ActiveProposalsQueue.Set uses collections.Join(*proposal.VotingEndTime, proposal.Id), after `proposal.VotingEndTime = &endTime`", qAct)
+	boolean("conversionQueueKeyIsVotingEnd", "EndBlocker, `case proposal.Expedited:` — the single ActiveProposalsQueue.Set uses collections.Join(*proposal.VotingEndTime, proposal.Id), after `proposal.VotingEndTime = &endTime`", qConv)
+
+	steps := c15DepositSteps(c, kdir)
+	b.WriteString("/-- x/gov/keeper/deposit.go AddDeposit: its top-level statements in source order (error checks skipped) -/\n")
+	b.WriteString("def addDepositSteps : List String := [\n")
+	for i, t := range steps {
+		sep := ","
+		if i == len(steps)-1 {
+			sep = ""
+		}
+		fmt.Fprintf(b, "  %s%s\n", leanStr(t), sep)
+	}
+	b.WriteString("]\n\n")
+	c.facts["C15.addDepositSteps"] = steps
+
 	b.WriteString("end FxVerif.Gen.C15\n")
 	c.write("C15.lean", b.String())
 }
